@@ -248,8 +248,13 @@ func NewLogger(filename string, rule RotateRule, compress bool) (*RotateLogger, 
 
 // Write 将 data 写入轮换日志。
 func (l *RotateLogger) Write(data []byte) (int, error) {
+	// data 会排队等待后台协程写入，而 io.Writer 不得保留调用方的切片
+	//（fmt.Fprint 等调用方会立即复用其缓冲区），因此排队的是一份拷贝。
+	buf := make([]byte, len(data))
+	copy(buf, data)
+
 	select {
-	case l.channel <- data:
+	case l.channel <- buf:
 		return len(data), nil
 	case <-l.done:
 		log.Println(string(data))
